@@ -134,7 +134,8 @@ pub fn run_case(ctx: &mut Ctx, _fam: &str, _k: u64, r: &mut Rng) {
         let mut saturated = false;
         for (li, l) in spec.layers.iter().enumerate() {
             if let Some((pre, out)) = layer_ref(l, &pb[2 * li], &pb[2 * li + 1], &x) {
-                if !(pre.max_abs() <= 100.0) {
+                // (single precision: exp(+-20) squared still leaves every quotient term a normal number)
+                if !(pre.max_abs() <= if IS_F32 { 20.0 } else { 100.0 }) {
                     saturated = true;
                 }
                 x = out;
